@@ -205,4 +205,55 @@ theorem compress_ok (zdeflate : Bytes → Bytes) (x body : Bytes)
   rw [e]
   simp
 
+/-! ### a whole fragmented message through the fixed code -/
+
+theorem recvFrames_cons_cons (loops guard : Bool) (inflate : Bytes → Option Bytes) (b : RBuf)
+    (f g : Bytes) (r : List Bytes) :
+    recvFrames loops guard inflate b (f :: g :: r) =
+      match reasmBytes loops b f with
+      | none => Recv.wild
+      | some b' => recvFrames loops guard inflate b' (g :: r) := by
+  rw [recvFrames]
+  cases reasmBytes loops b f <;> rfl
+
+theorem recvFrames_eq (inflate : Bytes → Option Bytes) (frs : List Bytes) (hne : frs ≠ [])
+    (b : RBuf) (T : Nat) (data : Bytes) (hI : BufInv b T data) :
+    recvFrames true true inflate b frs =
+      if data ++ frs.flatten = [] then Recv.error else recvMessage inflate (data ++ frs.flatten) := by
+  induction frs generalizing b T data with
+  | nil => exact absurd rfl hne
+  | cons f rest ih =>
+    obtain ⟨b', hb', hI'⟩ := reasmBytes_loop b T data f hI
+    cases rest with
+    | nil =>
+      simp only [recvFrames, hb', List.flatten_cons, List.flatten_nil, List.append_nil, Bool.true_and]
+      obtain ⟨hg, hlen, hlive, hmem⟩ := hI'
+      by_cases hT : T + f.length = 0
+      · have hav : b'.st.avail = 0 := by
+          rcases hg with ⟨_, h⟩ | ⟨h, _⟩
+          · exact h
+          · omega
+        have hnil : data ++ f = [] := List.eq_nil_of_length_eq_zero (by rw [hlen, hT])
+        simp [hav, hnil]
+      · have hpos : 0 < T + f.length := by omega
+        obtain ⟨hm1, hm2⟩ := hmem hpos
+        have hav : 4 < b'.st.avail ∧ b'.st.avail + 4 + (T + f.length) = b'.st.cap := by
+          rcases hg with ⟨h, _⟩ | ⟨_, h1, h2, _⟩
+          · omega
+          · exact ⟨h1, h2⟩
+        have hne0 : (b'.st.avail == 0) = false := by simp; omega
+        have hl : b'.live = true := hlive.2 hpos
+        have hnn : data ++ f ≠ [] := by
+          intro h; rw [h] at hlen; simp at hlen; omega
+        have hsum : b'.st.cap - b'.st.avail - reasmHeader = T + f.length := by
+          simp only [reasmHeader]; omega
+        simp only [hne0, hl, hsum, Bool.false_eq_true, if_false, Bool.not_true, hnn]
+        show recvMessage inflate ((b'.mem.drop 4).take (T + f.length)) = _
+        rw [hm2]
+    | cons g rest' =>
+      rw [recvFrames_cons_cons, hb']
+      show recvFrames true true inflate b' (g :: rest') = _
+      rw [ih (by simp) b' (T + f.length) (data ++ f) hI']
+      simp [List.append_assoc]
+
 end Cjet.Deflate
